@@ -36,7 +36,7 @@ func init() {
 	register(&Property{
 		Meta: report.Meta{
 			Property:    "C04",
-			Explanation: "Decision tables read off the CFG of both IsValidAt methods (every combination of bound present/absent and probe before/after), of verifyTimeBoundAt (invocation and every delegation of a full-range loop must be valid at the probe instant), of verifyTimeBound / IsValidNow (probe = time.Now()), and of parse.OptionalTimestamp (nil -> nil; value = time.Unix(sec,0); int53 bounds). Field/method pairing (expiration<->After, notBefore<->Before) and receiver/argument roles are part of the atoms. (R5) every exported option constructor: the function it returns, enumerated in the context of its creator, stores into *time.Time fields only cells allocated during the application, cells of the creator that no application writes (idempotent time.Round / Truncate / UTC of the cell's own value excepted), nil, or the caller's pointer. When the returned function ends in the application of another exported time option to the token, the single argument of that option must satisfy the same condition on the instant. (R3) on every path of executionAllowed the first call of time.Now comes after the call of loadProofs. (R5) if one path of the function an option returns stores a *time.Time field of the token, every path returning a nil error stores it, and none stores a value read from that very field of the token.",
+			Explanation: "Decision tables read off the CFG of both IsValidAt methods (every combination of bound present/absent and probe before/after), of verifyTimeBoundAt (invocation and every delegation of a full-range loop must be valid at the probe instant), of verifyTimeBound / IsValidNow (probe = time.Now()), and of parse.OptionalTimestamp (nil -> nil; value = time.Unix(sec,0); int53 bounds). Field/method pairing (expiration<->After, notBefore<->Before) and receiver/argument roles are part of the atoms. (R5) every exported option constructor: the function it returns, enumerated in the context of its creator, stores into *time.Time fields only cells allocated during the application, cells of the creator that no application writes (idempotent time.Round / Truncate / UTC of the cell's own value excepted), nil, or the caller's pointer. When the returned function ends in the application of another exported time option to the token, the single argument of that option must satisfy the same condition on the instant. (R3) on every path of executionAllowed the first call of time.Now comes after the call of loadProofs. (R5) if one path of the function an option returns stores a *time.Time field of the token, every path returning a nil error stores it, and none stores a value read from that very field of the token. (R2) in verifyTimeBoundAt (and new helpers) the block a loop test exits to has no predecessor inside the loop other than the header.",
 			Assumptions: []string{"time.Time.After/Before/Unix semantics", "go/ssa faithfully represents the source"},
 			Trusted:     []string{"golang.org/x/tools/go/ssa v0.29.0", "package time"},
 			NotDecided:  []string{"behaviour exactly at a bound (left open by the property)", "time package semantics"},
@@ -91,6 +91,7 @@ func runC02(x *Ctx) {
 
 func runC03(x *Ctx) {
 	x.C.Rule("C03.R1", "Match receives the policies of every delegation of the chain", 2)
+	defer noBreakOut(x, "C03.R1", invTok+"verifyArgs")
 	x.C.Rule("C03.R2", "Match is applied to ToIPLD(arguments); arguments = recv.arguments / the hook's checked result; ToIPLD assembles every key", 4)
 	x.C.Rule("C03.R3", "verifyArgs succeeds only if Match returned true", 1)
 	x.C.Rule("C03.R4", "Policy.Match is a conjunction over all statements with the four-valued table", 7)
@@ -443,6 +444,7 @@ func matchResultTerm(r *paths.Term) bool {
 func runC04(x *Ctx) {
 	x.C.Rule("C04.R1", "IsValidAt decision tables (delegation: exp+nbf, invocation: exp)", 10)
 	x.C.Rule("C04.R2", "verifyTimeBoundAt checks the invocation and every delegation at the probe instant", 3)
+	defer noBreakOut(x, "C04.R2", invTok+"verifyTimeBoundAt")
 	x.C.Rule("C04.R3", "the probe instant is time.Now(); IsValidNow = IsValidAt(time.Now())", 3)
 	x.C.Rule("C04.R4", "parse.OptionalTimestamp: nil->nil, time.Unix(sec,0), int53 bounds", 5)
 	x.C.Rule("C04.R5", "options: the instant a bound points to is not rewritten after the token is built", 7)
